@@ -13,28 +13,32 @@ import (
 )
 
 type OpFeatures struct {
-	Aliases         bool
-	AliasCollide    bool // aliases equal to other field names
-	Variables       bool
-	VarDefaults     bool
-	VarOmitted      bool // nullable variable without value and without default
-	VarInInput      bool
-	VarNamedID      bool
-	VarStricter     bool // variable declared non-null at a nullable position
-	Directives      bool
-	DirectiveVars   bool
-	NamedFragments  bool
-	InlineFragments bool
-	Typename        bool
-	RootTypename    bool
-	NodeRoot        bool
-	MultiOp         bool
-	DupFields       bool
-	NullLiterals    bool
-	AbstractFrags   bool // type-conditioned fragments on interface/union members
-	ExplicitID      bool // client selects id itself (plain, on a level without fragments)
-	IDAlias         bool // client-selected id may carry an alias or a directive
-	IDWithFragments bool // client-selected id next to fragments on the same level
+	Aliases          bool
+	AliasCollide     bool // aliases equal to other field names
+	Variables        bool
+	VarDefaults      bool
+	VarOmitted       bool // nullable variable without value and without default
+	VarInInput       bool
+	VarNamedID       bool
+	VarStricter      bool // variable declared non-null at a nullable position
+	Directives       bool
+	DirectiveVars    bool
+	NamedFragments   bool
+	InlineFragments  bool
+	Typename         bool
+	RootTypename     bool
+	NodeRoot         bool
+	MultiOp          bool
+	DupFields        bool
+	NullLiterals     bool
+	AbstractFrags    bool // type-conditioned fragments on interface/union members
+	ExplicitID       bool // client selects id itself (plain, on a level without fragments)
+	IDAlias          bool // client-selected id may carry an alias or a directive
+	IDWithFragments  bool // client-selected id next to fragments on the same level
+	AbstractNested   bool // composite sub-selections below a field of interface/union type
+	AbstractCondFrag bool // fragments whose type condition is an interface/union
+	AbstractFragMeta bool // id / __typename selected inside a concrete fragment below an abstract field
+	FragTwice        bool // one named fragment spread twice in the same selection set
 }
 
 func DefaultOpFeatures(t *tape.Tape) OpFeatures {
@@ -44,7 +48,7 @@ func DefaultOpFeatures(t *tape.Tape) OpFeatures {
 		NamedFragments:  t.Bool(1, 3),
 		InlineFragments: t.Bool(1, 3),
 		Typename:        t.Bool(1, 2),
-		AbstractFrags:   t.Bool(3, 4),
+		AbstractFrags:   t.Bool(3, 4) && false, // open known finding, see DESIGN.md sec. 9
 		ExplicitID:      t.Bool(1, 2),
 		Directives:      t.Bool(1, 4),
 		NullLiterals:    t.Bool(1, 4),
@@ -75,19 +79,20 @@ type Op struct {
 }
 
 type og struct {
-	t      *tape.Tape
-	w      *World
-	schema *ast.Schema
-	f      OpFeatures
-	vars   []*varDecl
-	frags  []string
-	budget int
-	maxD   int
-	deep   int
-	n      int
-	fields int
-	used   map[string]int
-	noNull bool
+	t             *tape.Tape
+	w             *World
+	schema        *ast.Schema
+	f             OpFeatures
+	vars          []*varDecl
+	frags         []string
+	budget        int
+	maxD          int
+	deep          int
+	n             int
+	fields        int
+	used          map[string]int
+	noNull        bool
+	underAbstract int
 }
 
 func (g *og) mark(s string) { g.used[s]++ }
@@ -286,12 +291,23 @@ func (g *og) selSetInto(typ *ast.Definition, depth int, used map[string]bool) st
 	var parts []string
 	hasID := used["id"] && !g.f.IDWithFragments
 	leafOnly := depth >= g.maxD || g.budget <= 0
+	abstract := typ.Kind == ast.Interface || typ.Kind == ast.Union
+	if (abstract || g.underAbstract > 0) && !g.f.AbstractNested {
+		leafOnly = true
+	}
+	if abstract {
+		g.underAbstract++
+		defer func() { g.underAbstract-- }()
+	}
 	var cands []*ast.FieldDefinition
 	for _, fd := range typ.Fields {
 		if strings.HasPrefix(fd.Name, "__") {
 			continue
 		}
 		if fd.Name == "id" && !g.f.ExplicitID {
+			continue
+		}
+		if fd.Name == "id" && g.underAbstract > 0 && !abstract && !g.f.AbstractFragMeta {
 			continue
 		}
 		if leafOnly && isComposite(g.schema.Types[fd.Type.Name()]) {
@@ -319,7 +335,7 @@ func (g *og) selSetInto(typ *ast.Definition, depth int, used map[string]bool) st
 		for i, fd := range chosen {
 			s := g.field(typ, fd, depth, used)
 			// wrap in fragments
-			if noFrag {
+			if noFrag || (abstract && !g.f.AbstractCondFrag) {
 			} else if g.f.InlineFragments && g.t.Bool(1, 5) {
 				g.mark("inline-fragment")
 				if g.t.Bool(1, 2) {
@@ -332,7 +348,8 @@ func (g *og) selSetInto(typ *ast.Definition, depth int, used map[string]bool) st
 				fn := g.next("F")
 				g.frags = append(g.frags, "fragment "+fn+" on "+typ.Name+" { "+s+" }")
 				s = "..." + fn
-				if g.t.Bool(1, 4) {
+				if g.f.FragTwice && g.t.Bool(1, 4) {
+					g.mark("fragment-spread-twice")
 					s += " ..." + fn // used twice
 				}
 			}
@@ -356,7 +373,8 @@ func (g *og) selSetInto(typ *ast.Definition, depth int, used map[string]bool) st
 			}
 		}
 	}
-	if (g.f.Typename && g.t.Bool(1, 3)) || len(parts) == 0 {
+	metaOK := !(g.underAbstract > 0 && !abstract) || g.f.AbstractFragMeta
+	if (g.f.Typename && metaOK && g.t.Bool(1, 3)) || len(parts) == 0 {
 		if !used["__typename"] {
 			used["__typename"] = true
 			parts = append(parts, "__typename")
